@@ -10,4 +10,4 @@ trap 'rm -rf "$T"' EXIT
 if ! (cd "$T" && git apply --whitespace=nowarn "$PATCH" 2>/dev/null || patch -s -p1 < "$PATCH"); then echo "APPLY-FAIL"; exit 3; fi
 if ! (cd "$T" && go build ./... 2>"$T/.builderr"); then echo "BUILD-FAIL"; head -5 "$T/.builderr"; exit 4; fi
 if [ -n "$RUNTESTS" ]; then /verif/tools/repotest.sh "$T" | head -3; fi
-/verif/bin/lucheck -repo "$T" -verif /verif -property "$PROPS" -no-evidence ${VERBOSE:+-v} 2>&1 | sed "s#$T/##g" | grep -E "^VIOLATION|^  rule=|^ERROR|quick:|thorough:" | sed 's#replay=[^ ]*##'
+${LUCHECK:-/verif/bin/lucheck} -repo "$T" -verif /verif -property "$PROPS" -no-evidence ${VERBOSE:+-v} 2>&1 | sed "s#$T/##g" | grep -E "^VIOLATION|^  rule=|^ERROR|quick:|thorough:" | sed 's#replay=[^ ]*##'
